@@ -11,7 +11,6 @@ Literal symbols representing numbers, strings and logicals.
 
 from sys import intern
 import pymbolic.primitives as pmbl
-from pymbolic.mapper.evaluator import UnknownVariableError
 
 from loki.types import BasicType
 from loki.expression.mixins import StrCompareMixin
@@ -68,10 +67,14 @@ class FloatLiteral(StrCompareMixin, _Literal):
         if isinstance(other, FloatLiteral):
             return self.value == other.value and self.kind == other.kind
 
-        try:
-            return float(self.value) == float(other)
-        except (TypeError, ValueError, UnknownVariableError):
-            return False
+        if isinstance(other, (int, float, str)):
+            # Only genuine numbers (or their string representation) are converted;
+            # calling float() on an expression node would evaluate it numerically
+            try:
+                return float(self.value) == float(other)
+            except (TypeError, ValueError):
+                return False
+        return False
 
     def __lt__(self, other):
         if isinstance(other, FloatLiteral):
